@@ -196,15 +196,15 @@ func genInput(r *hx.Rng, nscen int) *input {
 	// and deletes its chunks through the master: not part of this property
 	in.del = r.Chance(1, 3) && !in.cm
 	switch x := r.Intn(100); {
-	case x < 40:
+	case x < 42:
 		in.scen = 0
-	case x < 80:
+	case x < 84:
 		in.scen = 1
-	case x < 83:
+	case x < 87:
 		in.scen = 2
-	case x < 86:
+	case x < 90:
 		in.scen = 3
-	case x < 94:
+	case x < 93:
 		in.scen = 4
 	default:
 		in.scen = 5
@@ -521,7 +521,7 @@ func main() {
 	B.addVolume(2, "002")
 	C.addVolume(9, "000")
 
-	out.Rule = "first cases = fixed witnesses of the findings; then random single uploads of a fresh file id to the primary's real PostHandler (5/6 multipart POST, 1/6 PUT): file names from a universe with/without known extensions, a path, quotes, dot-files and lengths 255/256/300; part Content-Type from 12 values (none, text, octet-stream, image, json, xml, custom, > 255 bytes); payloads empty / small and large text / small and large binary (compressible or not) / jpeg / json / xml / a gzip file, sent plain, gzip-encoded or falsely labelled gzip; 0-3 Seaweed- pairs; ts absent or from 6 values incl. >= 2^40; ttl from 9 strings incl. malformed; cm flag; scenarios: one replica 40%, two replicas 40%, a replica answering 500 3%, a replica down 3% (each costs ~1.4 s of UploadData retries), a listed replica that lost the volume 8%, unreplicated 6%; one third of the cases then DELETE the file through the primary; non-trivial = the upload was acknowledged and some replica other than the primary serves the blob; distinct = canonical request"
+	out.Rule = "cases 0-2 = fixed witnesses of the findings, case 3 = regression witness of the repaired lost-volume defect; then random single uploads of a fresh file id to the primary's real PostHandler (5/6 multipart POST, 1/6 PUT): file names from a universe with/without known extensions, a path, quotes, dot-files and lengths 255/256/300; part Content-Type from 12 values (none, text, octet-stream, image, json, xml, custom, > 255 bytes); payloads empty / small and large text / small and large binary (compressible or not) / jpeg / json / xml / a gzip file, sent plain, gzip-encoded or falsely labelled gzip; 0-3 Seaweed- pairs; ts absent or from 6 values incl. >= 2^40; ttl from 9 strings incl. malformed; cm flag; scenarios: one replica 42%, two replicas 42%, a replica answering 500 3%, a replica dropping every connection 3%, a listed volume server that does not hold the volume 3% (each of the three costs ~1.4 s of UploadData retries), unreplicated 7%; one third of the cases then DELETE the file through the primary; non-trivial = the upload was acknowledged and some replica other than the primary serves the blob; distinct = canonical request"
 	root := hx.NewRng(out.Seed)
 	keyBase := uint64(out.Seed%1000)*100000 + 1
 	witnesses := fixedWitnesses()
@@ -615,7 +615,8 @@ func fixedWitnesses() []*input {
 		{put: true, ctype: "application/octet-stream", clear: bin, dkind: "bin-small", ts: 12345, scen: 0, cookie: 0x22222222},
 		// 2: empty payload: the primary keeps nothing, the replica a gzip stream with all metadata; delete only works on the replica
 		{name: "a.txt", ctype: "text/plain", clear: nil, dkind: "empty", ts: 12345, ttl: "3m", pairs: [][2]string{{"Seaweed-A", "1"}}, scen: 0, del: true, cookie: 0x33333333},
-		// 3: a listed replica that does not hold the volume acknowledges the write without storing it
+		// 3: regression witness of a repaired defect: a listed replica that does not hold the volume used to
+		// acknowledge the replicated write without storing it; it now answers with an error and the upload fails
 		{name: "a.txt", ctype: "text/plain", clear: txt, dkind: "text-small", ts: 12345, scen: 4, cookie: 0x44444444},
 	}
 }
